@@ -6,6 +6,7 @@ import ast
 import copy
 import os
 import re
+import sys
 
 REPO = os.environ.get("SA_REPO", "/repo")
 PKG = "shexer"
@@ -271,30 +272,52 @@ class Program:
                     parsed[mod] = (path, rel, src, ast.parse(src, filename=path))
                 except SyntaxError as e:
                     raise AnalysisError("syntax error in %s: %s" % (rel, e))
-        # names that a refactoring replaced are mapped back to the reference names the rules' anchors use (sa/unrename.py)
+        # The normalisation front end (DESIGN 11.10-11.12): names a refactoring replaced are mapped back to the reference names the
+        # rules' anchors use, new constants / helpers / locals are written out, inlined reference helpers are put back, a few idioms are
+        # lowered.  Each stage is an identity on behaviour; a stage that fails internally is switched off and the front end starts
+        # again from the sources (the check then sees the tree less normalised, never a half-rewritten one).
         from . import unrename
-        self.renames = unrename.compute({m: t[3] for m, t in parsed.items()}, PKG) if os.environ.get("SA_NO_UNRENAME") != "1" \
-            else unrename.Renames()
-        unrename.apply({m: t[3] for m, t in parsed.items()}, self.renames)
-        self.inlined_constants = unrename.inline_new_constants({m: t[3] for m, t in parsed.items()}, PKG) \
-            if os.environ.get("SA_NO_UNRENAME") != "1" else []
-        self.unextracted = ([], [])
-        if os.environ.get("SA_NO_UNRENAME") != "1":
-            ref_ids = unrename.reference_identifiers(PKG)
-            if ref_ids is not None:
-                from . import unextract
-                self.unextracted = unextract.unextract({m: t[3] for m, t in parsed.items()}, ref_ids)
-        self.reextracted = []
-        self.unhoisted = []
-        if os.environ.get("SA_NO_UNRENAME") != "1":
-            ref_trees = unrename._load_reference(PKG)
-            if ref_trees is not None:
-                from . import reextract
-                cur = {m: t[3] for m, t in parsed.items()}
-                self.reextracted = reextract.unmove(cur, ref_trees) + reextract.reextract(cur, ref_trees)
-                from . import unhoist
-                self.unhoisted = unhoist.unhoist(cur, ref_trees)
-        unrename.lower_idioms({m: t[3] for m, t in parsed.items()})
+        self.frontend_disabled = []
+        off = os.environ.get("SA_NO_UNRENAME") == "1"
+        for _attempt in range(8):
+            trees = {m: t[3] for m, t in parsed.items()}
+            stage = None
+            self.renames, self.inlined_constants, self.unextracted = unrename.Renames(), [], ([], [])
+            self.reextracted, self.unhoisted = [], []
+            try:
+                if not off:
+                    ref_trees = unrename._load_reference(PKG)
+                    stage = "unrename"
+                    if stage not in self.frontend_disabled:
+                        self.renames = unrename.compute(trees, PKG)
+                        unrename.apply(trees, self.renames)
+                    stage = "constants"
+                    if stage not in self.frontend_disabled:
+                        self.inlined_constants = unrename.inline_new_constants(trees, PKG)
+                    stage = "unextract"
+                    ref_ids = unrename.reference_identifiers(PKG)
+                    if stage not in self.frontend_disabled and ref_ids is not None:
+                        from . import unextract
+                        self.unextracted = unextract.unextract(trees, ref_ids)
+                    if ref_trees is not None:
+                        from . import reextract, unhoist
+                        stage = "reextract"
+                        if stage not in self.frontend_disabled:
+                            self.reextracted = reextract.unmove(trees, ref_trees) + reextract.reextract(trees, ref_trees)
+                        stage = "unhoist"
+                        if stage not in self.frontend_disabled:
+                            self.unhoisted = unhoist.unhoist(trees, ref_trees)
+                stage = "lower"
+                if stage not in self.frontend_disabled:
+                    unrename.lower_idioms(trees)
+                break
+            except AnalysisError:
+                raise
+            except Exception as ex:
+                self.frontend_disabled.append(stage)
+                sys.stderr.write("sa: front-end stage %s failed (%s: %s) and is switched off for this run\n" % (stage, type(ex).__name__, ex))
+                for mod, (path, rel, src, _t) in list(parsed.items()):
+                    parsed[mod] = (path, rel, src, ast.parse(src, filename=path))
         for mod, (path, rel, src, tree) in parsed.items():
             self.modules[mod] = Module(mod, path, rel, src, tree)
             self.modules[mod].program = self
